@@ -165,6 +165,11 @@ Definition commit_of (e : event) : N * N * list N := (e_id e, e_data e, e_remove
    the snapshot and the dedup record are those of the DELIVERED event `e`; the commit merged is `cm` (for an own echo:
    whatever commit is pending - which need not be the one the echo carries) *)
 (* the MLS content type of the event is Commit (kinds: 0 commit, 1 application message, 2 proposal, 3 hostile wrapper) *)
+(* proposal.rs process_proposal, Remove arm: a Remove proposal is the proposer's own request to leave iff the leaf it removes
+   is the proposer's (`e_removes` of a proposal event: the members it names; a leave created through MDK names nobody else -
+   the harness leaves the list empty for it - and a Remove proposal built directly with the MLS library names its victim) *)
+Definition self_remove (e : event) : bool := forallb (N.eqb (e_author e)) (e_removes e).
+
 Definition is_commit_kind (e : event) : bool := negb (e_kind e =? 1) && negb (e_kind e =? 2).
 
 Definition apply_commit (c : client) (e : event) (cm : N * N * list N) : client * rk :=
@@ -249,8 +254,8 @@ Fixpoint process (fuel : nat) (c : client) (e : event) : client * rk :=
     if existsb (N.eqb (100000 + e_id e)) (k_seen k) then fail_unprocessable c e rec_epoch else
     let k0 := with_seen (with_props k (k_props k ++ [e_id e])) ((100000 + e_id e) :: k_seen k) in
     (* an admin receiver auto-commits the leave - unless a commit of its own is already pending: then (since the fix) it
-       keeps the proposal pending like any other receiver *)
-    let auto := is_admin c && (match k_pending k with Some _ => false | None => true end) in
+       keeps the proposal pending like any other receiver; a Remove proposal naming ANOTHER member is never auto-committed *)
+    let auto := is_admin c && ((match k_pending k with Some _ => false | None => true end) && self_remove e) in
     let k1 := if auto then with_pending k0 (Some (1000 + e_id e * 8 + me c, 0, [e_author e])) else k0 in
     (put_dedup (set_core c k1) (e_id e) PS_PROCESSED (Some (k_epoch k)) None, if auto then RAuto else RPending)
   else
